@@ -4,6 +4,7 @@ import (
 	"context"
 	"encoding/json"
 	"fmt"
+	"os"
 	"runtime"
 	"strings"
 	"time"
@@ -1078,7 +1079,26 @@ func (r *c15Runner) runSkeletons(c *core.Ctx, idx *int64) bool {
 
 // ---- entry points ---------------------------------------------------------------------------------------
 
+// c15Skip: VERIF_C15_ONLY=<family>[,<family>] (an aid for whoever develops a family) restricts a run to the named
+// families of this check ("tree" = the forests and skeletons); such a run never counts as exhaustive.
+func c15Skip(c *core.Ctx, family string) bool {
+	only := os.Getenv("VERIF_C15_ONLY")
+	if only == "" || c.IsReplay {
+		return false
+	}
+	for _, f := range strings.Split(only, ",") {
+		if f == family {
+			return false
+		}
+	}
+	c.Incomplete("family " + family + " skipped: VERIF_C15_ONLY=" + only)
+	return true
+}
+
 func c15Run(c *core.Ctx) {
+	if c15Skip(c, "tree") {
+		return
+	}
 	poolTrack(true)
 	defer poolTrack(false)
 	r := newC15Runner()
@@ -1123,7 +1143,7 @@ func c15TextReplay(raw json.RawMessage) bool {
 }
 
 func c15Replay(c *core.Ctx, payload json.RawMessage) {
-	if c15DefaultsReplay(c, payload) || c15ConcurrentReplay(c, payload) || c15ContextReplay(c, payload) {
+	if c15DefaultsReplay(c, payload) || c15ConcurrentReplay(c, payload) || c15ContextReplay(c, payload) || c15ExprStmtReplay(c, payload) || c15RecCtxReplay(c, payload) || c15UsingReplay(c, payload) {
 		return
 	}
 	if c15TextReplay(payload) {
